@@ -239,7 +239,7 @@ Section Gen.
 
   Lemma wf_class_inv m : wf_class m = true -> class_facts m.
   Proof.
-    unfold wf_class. intros H.
+    unfold wf_class. intros H. peel H H14.
     peel H H13. peel H H12. peel H H11. peel H H10. peel H H9. peel H H8. peel H H7. peel H H6. peel H H5.
     peel H H4. peel H H3. peel H H2.
     constructor.
@@ -258,6 +258,10 @@ Section Gen.
     - apply nodup_by_str. exact H12.
     - apply nodup_by_N. exact H13.
   Qed.
+
+  Lemma wf_class_spans m : wf_class m = true ->
+    seq_spans_ok (S (length (get_element_vars m))) (get_element_vars m) = true.
+  Proof. unfold wf_class. intros H. peel H H14. exact H14. Qed.
 
   Lemma evars_eq m : wf_class m = true ->
     get_element_vars m = sort_by_index (flat_map snd (m_elements m) ++ match m_text m with Some t => [t] | None => [] end).
@@ -534,13 +538,12 @@ Section Gen.
   (* ---------------------------------------------------------------- element fields *)
   Lemma var_common_inv var : var_common var = true ->
     v_init var = true /\ v_mixed var = false /\ v_any_type var = false /\ v_nillable var = false
-    /\ v_elements var = [] /\ v_wildcards var = [] /\ True /\ v_sequence var = None
+    /\ v_elements var = [] /\ v_wildcards var = [] /\ True /\ True
     /\ v_index var <> 0.
   Proof.
-    unfold var_common. intros H. peel H H7. peel H H6. peel H H4. peel H H3. peel H H2. peel H H1. peel H H0.
+    unfold var_common. intros H. peel H H7. peel H H4. peel H H3. peel H H2. peel H H1. peel H H0.
     apply negb_true_iff in H0, H1, H2, H7. apply N.eqb_neq in H7.
     destruct (v_elements var); [|discriminate]. destruct (v_wildcards var); [|discriminate].
-    destruct (v_sequence var); [discriminate|].
     repeat split; assumption.
   Qed.
 
@@ -552,7 +555,7 @@ Section Gen.
             | Some f => factory_default f (v_default var) = true
             end.
   Proof.
-    unfold wf_text. intros H. peel H H4. peel H H3. peel H H2. peel H Hnw. peel H H1.
+    unfold wf_text. intros H. peel H Hsq. peel H H4. peel H H3. peel H H2. peel H Hnw. peel H H1.
     split; [exact H|]. split; [exact H1|].
     unfold var_type in H4. destruct (v_types var) as [|t [|? ?]]; try discriminate.
     apply andb_true_iff in H4 as [Hs Hd]. exists t. repeat split; try assumption.
@@ -672,12 +675,17 @@ Section Gen.
 
   Lemma wf_text_nofactory var : wf_text var = true -> v_factory var = None.
   Proof.
-    unfold wf_text. intros H. peel H H4. peel H H3. destruct (v_factory var); [discriminate|reflexivity].
+    unfold wf_text. intros H. peel H Hsq. peel H H4. peel H H3. destruct (v_factory var); [discriminate|reflexivity].
+  Qed.
+
+  Lemma wf_text_noseq var : wf_text var = true -> v_sequence var = None.
+  Proof.
+    unfold wf_text. intros H. peel H Hsq. destruct (v_sequence var); [discriminate|reflexivity].
   Qed.
 
   Lemma wf_text_nowrap var : wf_text var = true -> v_wrapper_qname var = None.
   Proof.
-    unfold wf_text. intros H. peel H H4. peel H H3. peel H H2. peel H Hnw.
+    unfold wf_text. intros H. peel H Hsq. peel H H4. peel H H3. peel H H2. peel H Hnw.
     unfold no_wrapper in Hnw. destruct (v_wrapper_qname var); [discriminate|reflexivity].
   Qed.
 
@@ -749,6 +757,365 @@ Section Gen.
     rewrite map_app in H. apply NoDup_app_r in H. exact H.
   Qed.
 
+  (* ---------------------------------------------------------------- sequence groups *)
+  Lemma last_same_eq s l : last_same s l = last_same_seq s l.
+  Proof. induction l as [|x r IH]; [reflexivity|]. cbn [last_same last_same_seq]. rewrite IH. reflexivity. Qed.
+
+  (* the values a field inside a sequence group may hold: a list of items, or one item / None *)
+  Definition atomic (y : value) : Prop := match y with VNone | VList _ _ => False | _ => True end.
+  Definition seq_shape (var : xvar) (x : value) : Prop :=
+    match v_factory var with
+    | Some _ => exists t l, x = VList t l /\ Forall atomic l
+    | None => match x with VList _ _ => False | _ => True end
+    end.
+
+  Lemma fits_item_atomic rec var x : fits_item rec var x = true -> atomic x.
+  Proof. unfold Fits.fits_item. destruct (vtype var), x; try discriminate; intros _; exact I. Qed.
+
+  Lemma fits_elem_shape rec var x : fits_elem rec var x = true -> v_tokens_factory var = None -> seq_shape var x.
+  Proof.
+    unfold Fits.fits_elem, seq_shape. intros H Ht. rewrite Ht in H. destruct (v_factory var).
+    - destruct x as [| |t l| | | |]; try discriminate H. apply andb_true_iff in H as [_ H]. exists t, l. split; [reflexivity|].
+      apply Forall_forall. intros y Hy. rewrite forallb_forall in H. apply (fits_item_atomic rec var y (H y Hy)).
+    - destruct x; try exact I. apply fits_item_atomic in H. destruct H.
+  Qed.
+
+  Lemma occ_atomic var x : v_tokens_factory var = None -> atomic x -> occ var x = [x].
+  Proof. intros Ht Ha. unfold occ. rewrite Ht. destruct x; try destruct Ha; reflexivity. Qed.
+
+  Lemma skipn_nth {A} (l : list A) : forall j x, nth_error l j = Some x -> skipn j l = x :: skipn (S j) l.
+  Proof.
+    induction l as [|a l IH]; intros [|j] x H; try discriminate H.
+    - inversion H. reflexivity.
+    - cbn [nth_error] in H. cbn [skipn]. apply (IH j x H).
+  Qed.
+
+  Lemma filter_flat_map {A B} (p : B -> bool) (f : A -> list B) l :
+    filter p (flat_map f l) = flat_map (fun x => filter p (f x)) l.
+  Proof. induction l as [|x r IH]; [reflexivity|]. cbn [flat_map]. rewrite filter_app, IH. reflexivity. Qed.
+
+  Lemma nodup_app_disj {A} (a b : list A) :
+    NoDup a -> NoDup b -> (forall x, In x a -> In x b -> False) -> NoDup (a ++ b).
+  Proof.
+    induction a as [|x a IH]; intros Ha Hb Hd; [exact Hb|]. inversion Ha as [|? ? Hx Ha']; subst.
+    cbn [app]. constructor.
+    - intros Hi. apply in_app_or in Hi as [Hi|Hi]; [exact (Hx Hi)|]. apply (Hd x); [left; reflexivity|exact Hi].
+    - apply IH; [exact Ha'|exact Hb|]. intros y Hy1 Hy2. apply (Hd y); [right; exact Hy1|exact Hy2].
+  Qed.
+
+  Lemma nodup_app_l {A} (a b : list A) : NoDup (a ++ b) -> NoDup a.
+  Proof.
+    induction a as [|x a IH]; intros H; [constructor|]. cbn [app] in H. inversion H as [|? ? Hx H']; subst.
+    constructor; [|apply IH; exact H']. intros Hi. apply Hx. apply in_or_app. left; exact Hi.
+  Qed.
+
+  Lemma nodup_app_apart {A B} (f : A -> B) a b x y :
+    NoDup (map f (a ++ b)) -> In x a -> In y b -> f x <> f y.
+  Proof.
+    induction a as [|z a IH]; intros Hn Hx Hy E; [destruct Hx|]. cbn [app map] in Hn. inversion Hn as [|? ? Hz Hn']; subst.
+    destruct Hx as [->|Hx]; [|exact (IH Hn' Hx Hy E)].
+    apply Hz. rewrite E. apply in_map. apply in_or_app. right; exact Hy.
+  Qed.
+
+  Definition oncef (vv : xvar * value) : bool := once_b (fst vv).
+  Definition idxf (vv : xvar * value) : N := v_index (fst vv).
+
+  Lemma sel_none var out : (forall vv, In vv out -> v_index (fst vv) <> v_index var) -> sel var out = [].
+  Proof.
+    induction out as [|vv r IH]; intros H; [reflexivity|]. unfold sel. cbn [flat_map]. fold (sel var r).
+    rewrite IH; [|intros v Hv; apply H; right; exact Hv]. rewrite app_nil_r. unfold same_var.
+    destruct (N.eqb_spec (v_index (fst vv)) (v_index var)) as [E|_]; [|reflexivity].
+    exfalso. apply (H vv (or_introl eq_refl) E).
+  Qed.
+
+  Section SeqGroup.
+    Variable cl : cls.
+    Variable fs : list (str * value).
+    Let obj := VObj cl fs.
+    Let X := field_of fs.
+
+    (* what one pass of `for var in sequence` yields for one field at position j *)
+    Definition cell (j : nat) (var : xvar) : list (xvar * value) :=
+      match X var with
+      | VList _ l => match nth_error l j with Some x => emit var x | None => [] end
+      | v => match j with O => emit var v | S _ => [] end
+      end.
+    Definition has (j : nat) (var : xvar) : bool :=
+      match X var with VList _ l => Nat.ltb j (length l) | _ => Nat.eqb j 0 end.
+    Definition maxlen (g : list xvar) : nat :=
+      fold_right (fun var acc => match X var with VList _ l => Nat.max (length l) acc | _ => acc end) O g.
+    (* what is still to come for one field from position j on *)
+    Definition tailj (j : nat) (var : xvar) : list value :=
+      match X var with
+      | VList _ l => skipn j l
+      | v => match j with O => occ var v | S _ => [] end
+      end.
+
+    Definition member_ok (var : xvar) : Prop :=
+      getattr obj (v_name var) = Ok (X var) /\ v_nillable var = false
+      /\ v_wrapper_qname var = None /\ v_tokens_factory var = None /\ seq_shape var (X var).
+    Definition group_ok (g : list xvar) : Prop :=
+      NoDup (map v_index g) /\ forall var, In var g -> member_ok var.
+
+    Lemma seq_round_spec j g : (forall var, In var g -> getattr obj (v_name var) = Ok (X var)) ->
+      seq_round obj g j = Ok (flat_map (cell j) g, existsb (has j) g).
+    Proof.
+      induction g as [|var r IH]; intros H; [reflexivity|].
+      cbn [seq_round]. rewrite (H var (or_introl eq_refl)). cbn [gbind].
+      rewrite IH; [|intros v Hv; apply H; right; exact Hv]. cbn [gbind flat_map existsb].
+      set (ri := flat_map (cell j) r). set (rr := existsb (has j) r). unfold cell, has.
+      destruct (X var) as [|p|t l|k f|? ? ? ? ?|? ? ?|?].
+      all: try (destruct j; reflexivity).
+      destruct (nth_error l j) eqn:En.
+      - assert (Hlt : (j < length l)%nat) by (apply nth_error_Some; congruence).
+        apply Nat.ltb_lt in Hlt. rewrite Hlt. reflexivity.
+      - apply nth_error_None in En. assert (Hn : Nat.ltb j (length l) = false) by (apply Nat.ltb_ge; exact En).
+        rewrite Hn. reflexivity.
+    Qed.
+
+    Lemma seq_fuel_eq g : (forall var, In var g -> getattr obj (v_name var) = Ok (X var)) ->
+      seq_fuel obj g = S (S (maxlen g)).
+    Proof.
+      intros H. unfold seq_fuel, maxlen. cbn [Nat.add]. do 2 f_equal.
+      induction g as [|var r IH]; [reflexivity|]. cbn [fold_right]. rewrite (H var (or_introl eq_refl)).
+      rewrite IH; [reflexivity|intros v Hv; apply H; right; exact Hv].
+    Qed.
+
+    Lemma maxlen_cons v r : maxlen (v :: r) = match X v with VList _ l => Nat.max (length l) (maxlen r) | _ => maxlen r end.
+    Proof. reflexivity. Qed.
+
+    Lemma has_bound j g var : In var g -> has j var = true -> (j < maxlen g)%nat \/ j = O.
+    Proof.
+      induction g as [|v r IH]; intros Hin Hh; [destruct Hin|]. rewrite maxlen_cons.
+      destruct Hin as [->|Hin].
+      - unfold has in Hh. destruct (X var) as [| |t l| | | |]; try (right; apply Nat.eqb_eq; exact Hh). left. apply Nat.ltb_lt in Hh. lia.
+      - destruct (IH Hin Hh) as [H|H]; [left|right; exact H]. destruct (X v) as [| |t l| | | |]; try exact H. lia.
+    Qed.
+
+    Lemma sel_emit_other' var v0 x : v_index v0 <> v_index var -> sel var (emit v0 x) = [].
+    Proof.
+      intros H. apply sel_none. intros vv Hvv. unfold emit in Hvv.
+      assert (E : fst vv = v0).
+      { destruct x; try (destruct (v_nillable v0)); try destruct Hvv as [<-|[]]; try destruct Hvv; reflexivity. }
+      rewrite E. exact H.
+    Qed.
+
+    Lemma sel_cell_other j var v0 : v_index v0 <> v_index var -> sel var (cell j v0) = [].
+    Proof.
+      intros H. unfold cell. destruct (X v0) as [| |t l| | | |]; try (destruct j; [apply sel_emit_other'; exact H|reflexivity]).
+      destruct (nth_error l j); [apply sel_emit_other'; exact H|reflexivity].
+    Qed.
+
+    Lemma sel_cells j var g : NoDup (map v_index g) -> In var g -> sel var (flat_map (cell j) g) = sel var (cell j var).
+    Proof.
+      induction g as [|v0 r IH]; intros Hnd Hin; [destruct Hin|]. cbn [map] in Hnd. inversion Hnd as [|? ? Hni Hnd']; subst.
+      cbn [flat_map]. rewrite sel_app. destruct Hin as [->|Hin].
+      - assert (Hr : sel var (flat_map (cell j) r) = []).
+        { apply sel_none. intros vv Hvv E. apply in_flat_map in Hvv as [v1 [Hv1 Hvv]].
+          assert (E1 : sel var (cell j v1) = []).
+          { apply sel_cell_other. intros E2. apply Hni. rewrite <- E2. apply in_map. exact Hv1. }
+          assert (E3 : fst vv = v1).
+          { unfold cell, emit in Hvv. destruct (X v1); try destruct j; try destruct (nth_error _ _) as [[]|];
+              try destruct (v_nillable v1); try destruct Hvv as [<-|[]]; try destruct Hvv; reflexivity. }
+          apply Hni. rewrite <- E, E3. apply in_map. exact Hv1. }
+        rewrite Hr, app_nil_r. reflexivity.
+      - rewrite (IH Hnd' Hin). rewrite (sel_cell_other j var v0); [reflexivity|].
+        intros E. apply Hni. rewrite E. apply in_map. exact Hin.
+    Qed.
+
+    Lemma sel_one var x : sel var [(var, x)] = occ var x.
+    Proof. unfold sel. cbn [flat_map fst snd]. rewrite same_var_refl, app_nil_r. reflexivity. Qed.
+
+    Lemma emit_some var x : x <> VNone -> emit var x = [(var, x)].
+    Proof. intros H. unfold emit. destruct x; try reflexivity. congruence. Qed.
+
+    (* one field, one round *)
+    Lemma cell_facts j var : member_ok var ->
+      sel var (cell j var) ++ tailj (S j) var = tailj j var
+      /\ (has j var = false -> tailj (S j) var = [])
+      /\ (forall vv, In vv (cell j var) -> fst vv = var /\ snd vv <> VNone /\ (pair_whole fs vv \/ pair_part fs vv))
+      /\ filter oncef (cell j var) = match j with O => if once_b var then emit var (X var) else [] | S _ => [] end.
+    Proof.
+      intros [_ [Hn [Hw [Ht Hs]]]]. unfold cell, tailj, has, seq_shape, once_b in *. rewrite Hw.
+      destruct (v_factory var) as [f|] eqn:Ef.
+      - destruct Hs as [t [l [Ex Hat]]]. fold X in Ex. rewrite Ex. cbn [orb].
+        destruct (nth_error l j) as [x|] eqn:En.
+        + assert (Hx : atomic x) by (rewrite Forall_forall in Hat; apply Hat; apply (nth_error_In _ _ En)).
+          assert (Hxn : x <> VNone) by (intros ->; exact Hx).
+          rewrite (emit_some var x Hxn). rewrite sel_one, (occ_atomic var x Ht Hx). cbn [app].
+          split; [symmetry; apply skipn_nth; exact En|]. split.
+          { intros Hh. apply Nat.ltb_ge in Hh. assert ((j < length l)%nat) by (apply nth_error_Some; congruence). lia. }
+          split.
+          { intros vv [<-|[]]. cbn [fst snd]. split; [reflexivity|]. split; [exact Hxn|]. right.
+            exists f, t, l. cbn [fst snd]. repeat split; try assumption. apply (nth_error_In _ _ En). }
+          cbn [filter]. unfold oncef, once_b. cbn [fst]. rewrite Ef, Hw. cbn [orb]. destruct j; reflexivity.
+        + apply nth_error_None in En. cbn [app]. rewrite (skipn_all2 l); [|lia]. rewrite (skipn_all2 l); [|lia].
+          split; [reflexivity|]. split; [reflexivity|]. split; [intros vv []|]. destruct j; reflexivity.
+      - cbn [orb]. fold X in Hs.
+        destruct (X var) as [|p|t l|k f0|? ? ? ? ?|? ? ?|?] eqn:Ex; try destruct Hs; destruct j as [|j'].
+        all: try (split; [reflexivity|split; [reflexivity|split; [intros vv []|reflexivity]]]).
+        { unfold emit. rewrite Hn. split; [reflexivity|split; [reflexivity|split; [intros vv []|reflexivity]]]. }
+        all: unfold emit; rewrite sel_one, app_nil_r; split; [reflexivity|]; split; [reflexivity|]; split;
+            [intros vv [<-|[]]; cbn [fst snd]; split; [reflexivity|]; split; [discriminate|]; left;
+             unfold pair_whole; cbn [fst snd]; symmetry; exact Ex
+            |cbn [filter]; unfold oncef, once_b; cbn [fst]; rewrite Ef; reflexivity].
+    Qed.
+
+    (* one round *)
+    Lemma round_facts j g : group_ok g ->
+      (forall var, In var g -> sel var (flat_map (cell j) g) ++ tailj (S j) var = tailj j var)
+      /\ (existsb (has j) g = false -> forall var, In var g -> tailj (S j) var = [])
+      /\ (forall vv, In vv (flat_map (cell j) g) -> In (fst vv) g /\ snd vv <> VNone /\ (pair_whole fs vv \/ pair_part fs vv))
+      /\ filter oncef (flat_map (cell j) g)
+         = match j with O => flat_map (fun var => if once_b var then emit var (X var) else []) g | S _ => [] end.
+    Proof.
+      intros [Hnd Hg]. split; [|split; [|split]].
+      - intros var Hv. rewrite (sel_cells j var g Hnd Hv). apply (cell_facts j var (Hg var Hv)).
+      - intros Hex var Hv. destruct (cell_facts j var (Hg var Hv)) as [_ [H _]]. apply H.
+        destruct (has j var) eqn:Eh; [|reflexivity]. assert (Ht : existsb (has j) g = true) by (apply existsb_exists; exists var; split; assumption).
+        congruence.
+      - intros vv Hvv. apply in_flat_map in Hvv as [var [Hv Hvv]].
+        destruct (cell_facts j var (Hg var Hv)) as [_ [_ [H _]]]. destruct (H vv Hvv) as [E [H1 H2]].
+        split; [rewrite E; exact Hv|]. split; assumption.
+      - rewrite filter_flat_map.
+        assert (E : forall var, In var g -> filter oncef (cell j var) = match j with O => if once_b var then emit var (X var) else [] | S _ => [] end).
+        { intros var Hv. apply (cell_facts j var (Hg var Hv)). }
+        clear Hnd Hg. induction g as [|v r IH]; [destruct j; reflexivity|]. cbn [flat_map].
+        rewrite (E v (or_introl eq_refl)), IH; [|intros var Hv; apply E; right; exact Hv]. destruct j; reflexivity.
+    Qed.
+
+    Definition seqP (g : list xvar) (j : nat) (out : list (xvar * value)) : Prop :=
+      (forall vv, In vv out -> In (fst vv) g /\ snd vv <> VNone /\ (pair_whole fs vv \/ pair_part fs vv))
+      /\ (forall var, In var g -> sel var out = tailj j var)
+      /\ filter oncef out = match j with O => flat_map (fun var => if once_b var then emit var (X var) else []) g | S _ => [] end.
+
+    Lemma seq_rolling_S f g j :
+      seq_rolling (S f) obj g j
+      = (r <- seq_round obj g j ;;
+         let '(items, rolling) := r in
+         if rolling then rest <- seq_rolling f obj g (S j) ;; Ok (items ++ rest) else Ok items).
+    Proof. reflexivity. Qed.
+
+    Lemma seq_rolling_spec g : group_ok g -> forall f j, (maxlen g + 1 <= f + j)%nat ->
+      exists out, seq_rolling (S f) obj g j = Ok out /\ seqP g j out.
+    Proof.
+      intros Hgok f. pose proof Hgok as [Hnd Hg].
+      assert (Hga : forall var, In var g -> getattr obj (v_name var) = Ok (X var)) by (intros var Hv; apply (Hg var Hv)).
+      induction f as [|f IH]; intros j Hf.
+      all: rewrite seq_rolling_S, (seq_round_spec j g Hga); cbn [gbind].
+      all: destruct (round_facts j g Hgok) as [Rb [Rn [Ra Rc]]].
+      all: destruct (existsb (has j) g) eqn:Eroll.
+      - exfalso. apply existsb_exists in Eroll as [var [Hv Hh]]. destruct (has_bound j g var Hv Hh); lia.
+      - exists (flat_map (cell j) g). split; [reflexivity|]. split; [exact Ra|]. split; [|exact Rc].
+        intros var Hv. rewrite <- (Rb var Hv), (Rn eq_refl var Hv), app_nil_r. reflexivity.
+      - destruct (IH (S j)) as [out' [Hrun [Pa [Pb Pc]]]]; [lia|]. rewrite Hrun. cbn [gbind].
+        exists (flat_map (cell j) g ++ out'). split; [reflexivity|]. split; [|split].
+        + intros vv Hvv. apply in_app_or in Hvv as [Hvv|Hvv]; [apply Ra|apply Pa]; exact Hvv.
+        + intros var Hv. rewrite sel_app, (Pb var Hv). apply (Rb var Hv).
+        + rewrite filter_app, Pc, app_nil_r. exact Rc.
+      - exists (flat_map (cell j) g). split; [reflexivity|]. split; [exact Ra|]. split; [|exact Rc].
+        intros var Hv. rewrite <- (Rb var Hv), (Rn eq_refl var Hv), app_nil_r. reflexivity.
+    Qed.
+
+    (* a segment of the field list and what next_value yields for it *)
+    Definition Seg (vars : list xvar) (out : list (xvar * value)) : Prop :=
+      (forall vv, In vv out -> In (fst vv) vars /\ snd vv <> VNone /\ (pair_whole fs vv \/ pair_part fs vv))
+      /\ (forall var, In var vars -> sel var out = occ var (X var))
+      /\ NoDup (map idxf (filter oncef out)).
+
+    Lemma seg_app a b o1 o2 : NoDup (map v_index (a ++ b)) -> Seg a o1 -> Seg b o2 -> Seg (a ++ b) (o1 ++ o2).
+    Proof.
+      intros Hnd [A1 [A2 A3]] [B1 [B2 B3]]. split; [|split].
+      - intros vv Hvv. apply in_app_or in Hvv as [Hvv|Hvv].
+        + destruct (A1 vv Hvv) as [H1 H2]. split; [apply in_or_app; left; exact H1|exact H2].
+        + destruct (B1 vv Hvv) as [H1 H2]. split; [apply in_or_app; right; exact H1|exact H2].
+      - intros var Hv. rewrite sel_app. apply in_app_or in Hv as [Hv|Hv].
+        + rewrite (A2 var Hv). rewrite (sel_none var o2); [apply app_nil_r|].
+          intros vv Hvv E. destruct (B1 vv Hvv) as [Hb _]. apply (nodup_app_apart v_index a b var (fst vv) Hnd Hv Hb). symmetry; exact E.
+        + rewrite (B2 var Hv). rewrite (sel_none var o1); [reflexivity|].
+          intros vv Hvv E. destruct (A1 vv Hvv) as [Ha _]. apply (nodup_app_apart v_index a b (fst vv) var Hnd Ha Hv). exact E.
+      - rewrite filter_app, map_app. apply nodup_app_disj; [exact A3|exact B3|].
+        intros i Hi1 Hi2. apply in_map_iff in Hi1 as [v1 [E1 H1]]. apply in_map_iff in Hi2 as [v2 [E2 H2]].
+        apply filter_In in H1 as [H1 _]. apply filter_In in H2 as [H2 _].
+        destruct (A1 v1 H1) as [Ha _]. destruct (B1 v2 H2) as [Hb _].
+        apply (nodup_app_apart v_index a b (fst v1) (fst v2) Hnd Ha Hb). unfold idxf in *. congruence.
+    Qed.
+
+    Lemma seg_plain var : getattr obj (v_name var) = Ok (X var) -> v_nillable var = false -> Seg [var] (emit var (X var)).
+    Proof.
+      intros _ Hn. unfold emit. rewrite Hn.
+      destruct (X var) eqn:Ex.
+      { split; [intros vv []|]. split; [|constructor]. intros v' [<-|[]]. fold X. rewrite Ex. reflexivity. }
+      all: split; [intros vv [<-|[]]; cbn [fst snd]; split; [left; reflexivity|]; split; [discriminate|]; left;
+                     unfold pair_whole; cbn [fst snd]; symmetry; exact Ex|];
+          (split; [intros v' [<-|[]]; rewrite sel_one; fold X; rewrite Ex; reflexivity|]);
+          cbn [filter]; destruct (oncef _); cbn [map]; constructor; try (intros []); constructor.
+    Qed.
+
+    Lemma seg_group g out : group_ok g -> seqP g 0 out -> Seg g out.
+    Proof.
+      intros [Hnd Hg] [Pa [Pb Pc]]. split; [exact Pa|]. split.
+      - intros var Hv. rewrite (Pb var Hv). unfold tailj. destruct (Hg var Hv) as [_ [_ [_ [Ht _]]]].
+        destruct (X var) eqn:Ex; try reflexivity. unfold occ. rewrite Ht. reflexivity.
+      - rewrite Pc. apply (nodup_flat_opt v_index idxf); [exact Hnd|].
+        intros var Hv. destruct (once_b var); [|left; reflexivity]. destruct (Hg var Hv) as [_ [Hn _]].
+        unfold emit. rewrite Hn. destruct (X var); try (left; reflexivity); right; eexists; split; reflexivity.
+    Qed.
+
+    Lemma seg_nil : Seg [] [].
+    Proof. split; [intros vv []|]. split; [intros var []|constructor]. Qed.
+
+    Lemma loop_spec : forall fuel sf vars,
+      (length vars < fuel)%nat -> (length vars < sf)%nat ->
+      NoDup (map v_index vars) ->
+      (forall var, In var vars -> getattr obj (v_name var) = Ok (X var) /\ v_nillable var = false) ->
+      (forall var, In var vars -> v_tokens_factory var = None -> seq_shape var (X var)) ->
+      seq_spans_ok sf vars = true ->
+      exists out, next_value_loop fuel obj vars = Ok out /\ Seg vars out.
+    Proof.
+      induction fuel as [|fuel IH]; intros sf vars Hf Hsf Hnd Hg Hsh Hsp; [lia|].
+      destruct sf as [|sf]; [lia|].
+      destruct vars as [|var rest]; [exists []; split; [reflexivity|exact seg_nil]|].
+      cbn [next_value_loop]. cbn [seq_spans_ok] in Hsp. cbn [length] in Hf, Hsf.
+      destruct (v_sequence var) as [s|] eqn:Es.
+      - rewrite <- last_same_eq. remember (last_same (Some s) rest) as n eqn:En. clear En.
+        apply andb_true_iff in Hsp as [Hmem Hsp].
+        remember (var :: firstn n rest) as g eqn:Eg. remember (skipn n rest) as r eqn:Er.
+        assert (Evars : var :: rest = g ++ r) by (subst g r; cbn [app]; rewrite firstn_skipn; reflexivity).
+        rewrite Evars in Hnd, Hg, Hsh.
+        assert (Hgok : group_ok g).
+        { split; [rewrite map_app in Hnd; apply (nodup_app_l _ _ Hnd)|].
+          intros v Hv. rewrite forallb_forall in Hmem. specialize (Hmem v Hv). unfold seq_member, no_wrapper in Hmem.
+          apply andb_true_iff in Hmem as [Hw Ht].
+          destruct (v_wrapper_qname v) eqn:Ewq; [discriminate Hw|]. destruct (v_tokens_factory v) eqn:Etf; [discriminate Ht|].
+          destruct (Hg v (in_or_app _ _ _ (or_introl Hv))) as [H1 H2].
+          unfold member_ok. rewrite Ewq, Etf. split; [exact H1|split; [exact H2|split; [reflexivity|split; [reflexivity|]]]].
+          apply Hsh; [apply in_or_app; left; exact Hv|exact Etf]. }
+        rewrite (seq_fuel_eq g (fun v Hv => proj1 (proj2 Hgok v Hv))).
+        destruct (seq_rolling_spec g Hgok (S (maxlen g)) 0) as [o1 [Hr1 HP1]]; [lia|]. rewrite Hr1. cbn [gbind].
+        destruct (IH sf r) as [o2 [Hr2 HS2]].
+        + subst r. rewrite skipn_length. lia.
+        + subst r. rewrite skipn_length. lia.
+        + rewrite map_app in Hnd. apply (NoDup_app_r _ _ Hnd).
+        + intros v Hv. apply Hg. apply in_or_app. right; exact Hv.
+        + intros v Hv. apply Hsh. apply in_or_app. right; exact Hv.
+        + exact Hsp.
+        + rewrite Hr2. cbn [gbind]. exists (o1 ++ o2). split; [reflexivity|].
+          rewrite Evars. apply seg_app; [exact Hnd|apply seg_group; assumption|exact HS2].
+      - destruct (Hg var (or_introl eq_refl)) as [Hga Hn]. rewrite Hga. cbn [gbind].
+        cbn [map] in Hnd.
+        destruct (IH sf rest) as [o2 [Hr2 HS2]].
+        + lia.
+        + lia.
+        + inversion Hnd; assumption.
+        + intros v Hv. apply Hg. right; exact Hv.
+        + intros v Hv. apply Hsh. right; exact Hv.
+        + exact Hsp.
+        + rewrite Hr2. cbn [gbind]. exists (emit var (X var) ++ o2). split; [reflexivity|].
+          change (var :: rest) with ([var] ++ rest). apply seg_app; [exact Hnd|apply seg_plain; assumption|exact HS2].
+    Qed.
+  End SeqGroup.
+
   Lemma evar_nonillable m var : wf_class m = true -> In var (get_element_vars m) -> v_nillable var = false.
   Proof.
     intros Hwc Hin. destruct (wf_class_evar m var Hwc Hin) as [[Hwe _]|[_ [Hwt _]]].
@@ -770,18 +1137,41 @@ Section Gen.
 
   (* what next_value yields for a fitting instance *)
   Lemma class_pairs cl fs m :
-    wf_class m = true -> map fst fs = map v_name (get_all_vars m) -> pairs_spec cl fs m (pairs cl fs m).
+    wf_class m = true -> map fst fs = map v_name (get_all_vars m) ->
+    (forall e v, In e (m_elements m) -> In v (snd e) -> v_tokens_factory v = None -> seq_shape v (field_of fs v)) ->
+    pairs_spec cl fs m (pairs cl fs m).
   Proof.
-    intros Hwc Hnames.
-    assert (H : pairs_spec cl fs m (flat_map (emit1 fs) (get_element_vars m))).
-    { apply pairs_spec_plain; [exact Hnames| | |apply evars_indices_nodup; exact Hwc].
-      - intros var Hv. apply (in_allvars m var Hwc). right; exact Hv.
-      - intros var Hin. destruct (wf_class_evar m var Hwc Hin) as [[Hwe _]|[_ [Hwt _]]].
-        + destruct (wf_elem_inv var Hwe) as [_ [Hc _]]. destruct (var_common_inv var Hc) as [_ [_ [_ [Hn [_ [_ [_ [Hs _]]]]]]]].
-          split; assumption.
-        + destruct (wf_text_inv var Hwt) as [_ [Hwt0 _]]. destruct (var_common_inv var Hwt0) as [_ [_ [_ [Hn [_ [_ [_ [Hs _]]]]]]]].
-          split; assumption. }
-    rewrite (pairs_eq _ _ _ _ H). exact H.
+    intros Hwc Hnames Hsh.
+    destruct (m_text m) as [tv|] eqn:Htx.
+    - (* a Text field: no sequence group *)
+      assert (H : pairs_spec cl fs m (flat_map (emit1 fs) (get_element_vars m))).
+      { apply pairs_spec_plain; [exact Hnames| | |apply evars_indices_nodup; exact Hwc].
+        - intros var Hv. apply (in_allvars m var Hwc). right; exact Hv.
+        - intros var Hin. split; [|apply (evar_nonillable m var Hwc Hin)].
+          destruct (wf_class_evar m var Hwc Hin) as [[_ Hi]|[_ [Hwt _]]]; [|apply (wf_text_noseq var Hwt)].
+          destruct (wf_class_inv m Hwc) as [F1 F2 F3 F4 F5 F6 F7 F8 F9 F10 F11 F12 F13].
+          rewrite Htx in F11. destruct F11 as [_ Hnoe]. rewrite Hnoe in Hi. destruct Hi. }
+      rewrite (pairs_eq _ _ _ _ H). exact H.
+    - set (vars := get_element_vars m).
+      destruct (loop_spec cl fs (S (length vars)) (S (length vars)) vars) as [out [Hrun [Sa [Sb Sc]]]]; try lia.
+      + apply evars_indices_nodup; exact Hwc.
+      + intros var Hv. split; [|apply (evar_nonillable m var Hwc Hv)].
+        apply (getattr_field cl fs m var Hnames). apply (in_allvars m var Hwc). right; exact Hv.
+      + intros var Hv Ht. destruct (wf_class_evar m var Hwc Hv) as [[_ Hi]|[Ht' _]]; [|congruence].
+        apply (Hsh _ var Hi (or_introl eq_refl) Ht).
+      + apply (wf_class_spans m Hwc).
+      + assert (H : pairs_spec cl fs m out).
+        { constructor; [exact Hrun|exact Sa|exact Sc|exact Sb]. }
+        rewrite (pairs_eq _ _ _ _ H). exact H.
+  Qed.
+
+  Lemma class_pairs_fits rec cl fs m :
+    wf_class m = true -> map fst fs = map v_name (get_all_vars m) ->
+    (forall e v, In e (m_elements m) -> In v (snd e) -> fits_elem rec v (field_of fs v) = true) ->
+    pairs_spec cl fs m (pairs cl fs m).
+  Proof.
+    intros Hwc Hn Hfe. apply class_pairs; try assumption.
+    intros e v He Hv Ht. apply (fits_elem_shape rec v _ (Hfe e v He Hv) Ht).
   Qed.
 
   Lemma wrap_ok var (r : gres (list wevent)) items :
@@ -818,7 +1208,7 @@ Section Gen.
         apply (Hfa _ Hina). }
     cbn [gbind]. rewrite !app_nil_r.
     (* the field values *)
-    pose proof (class_pairs cl fs m Hwc Hnames) as Hps.
+    pose proof (class_pairs_fits _ cl fs m Hwc Hnames Hfe) as Hps.
     rewrite (ps_eq _ _ _ _ Hps).
     cbn [gbind].
     (* the content *)
